@@ -1446,13 +1446,31 @@ def _worker(args):
     part = Part()
     results = []
     for s in seeds:
-        rng = random.Random(s)
-        spec = gen_spec(rng, size)
+        spec = None
         try:
+            rng = random.Random(s)
+            spec = gen_spec(rng, size)
             results.append(real_case(spec, s + 1, n_hist, n_edits, part))
-        except AssertionError:
-            raise
+        except Exception as e:  # noqa: BLE001
+            # name the case: `gen_spec(random.Random(<seed>), <size>)` / `real_case(spec, <seed>+1, ..)` replays it
+            import traceback
+
+            raise RuntimeError(
+                f"C13 harness worker failed on case seed={s} size={size} n_hist={n_hist} n_edits={n_edits} "
+                f"(replay: harness.c13.replay_seed({s}, {size}, {n_hist}, {n_edits})); "
+                f"target={None if spec is None else spec.get('target')}\n{traceback.format_exc()}"
+            ) from None
     return part, results
+
+
+def replay_seed(seed: int, size: int = 4, n_hist: int = 2, n_edits: int = 6):
+    """re-run one generated case in-process (development aid for a crashed worker)"""
+    import random
+
+    part = Part()
+    spec = gen_spec(random.Random(seed), size)
+    res = real_case(spec, seed + 1, n_hist, n_edits, part)
+    return spec, res, part
 
 
 def compare_cases(ctx: Ctx, results):
